@@ -428,6 +428,10 @@ unsafe impl Allocator for Ledger {
             if layout.size() == 0 || !layout.align().is_power_of_two() || layout.size() > isize::MAX as usize - (layout.align() - 1) {
                 c.alloc_errors.push(format!("invalid layout requested: size={} align={}", layout.size(), layout.align()));
             }
+            // only tables allocate through this allocator: their block must be aligned for an aligned group scan
+            if layout.align() < hashbrown::verif::GROUP_WIDTH {
+                c.alloc_errors.push(format!("invalid layout requested: size={} align={} is below the group width {}", layout.size(), layout.align(), hashbrown::verif::GROUP_WIDTH));
+            }
             // requests the machine cannot serve are refused here, deterministically and on the
             // record, instead of depending on what the system allocator answers
             countdown(&mut c.refuse_nth) || layout.size() > (1usize << 36)
